@@ -77,6 +77,15 @@ add("C14", "Persist.tla runs an original store and an imported / rebuilt copy in
     BDD_NOTE + " The CLI --export/--import path and the no-overwrite rule are exercised through the C15 CLI runner (see C15).",
     "TLA+ lock-step model of original and persisted copy model-checked; TLC trace validation of real round trips in mid-history", "6/C14")
 
+add("C18", "NoGoods.tla: every add sequence of <= 3 (thorough: 4) nogoods over 3 positions under all modes incl. mode switches; after every step "
+    "the four clauses of the property and their closure variant are evaluated for all 27 partial interpretations (14400 states). Real NoGoodStore: "
+    "seeded add sequences over 2-6 positions; TLC judges every observed conclusion / conflict / closure by brute force over the total assignments "
+    "and replays the adds through the transcription (bucket contents and answers must be predicted exactly; drift only). --selftest shows the "
+    "unrepaired fold / Subsume transcriptions rediscover both repaired defects.",
+    "Trusted: TLC evaluating spec/NoGoodsOps.tla; hook H2 (read-only bucket export, public wrapper of conclusion_closure). Bounded: 3 positions "
+    "exhaustively on the model, <= 6 positions sampled on the code. The empty nogood is a listed known finding (F10).",
+    "TLA+ transcription of the nogood store model-checked against reference notions; TLC trace validation of recorded store answers", "6/C18")
+
 def main():
     hooks = subprocess.run(["git", "-C", "/repo", "log", "--format=%H %s"], stdout=subprocess.PIPE, text=True).stdout.splitlines()
     hook_commits = [l.split()[0] for l in hooks if " verif hook" in l]
